@@ -239,7 +239,11 @@ def parse_range(value):
     if not value:
         return None
     # Might return None too:
-    return Range.parse(value)
+    try:
+        return Range.parse(value)
+    except ValueError:
+        # int() refuses digit strings longer than sys.get_int_max_str_digits()
+        return None
 
 
 def serialize_range(value):
@@ -274,7 +278,11 @@ def parse_content_range(value):
     if not value or not value.strip():
         return None
     # May still return None
-    return ContentRange.parse(value)
+    try:
+        return ContentRange.parse(value)
+    except ValueError:
+        # int() refuses digit strings longer than sys.get_int_max_str_digits()
+        return None
 
 
 def serialize_content_range(value):
